@@ -2,10 +2,11 @@
    Property theorems only; proofs live in Proofs/PathProofs.v, IncludeProofs.v, RequireProofs.v.
 
    Locations and "under" are the reference notions of Spec/PathSpec.v (POSIX resolution
-   without symbolic links).  The unrestricted containment statements are FALSE of today's
-   code (lemmas *_refuted, replayed on the implementation by the harness; known findings in
-   findings/known_C12.json); what is proved is containment under the spelled-out excluding
-   hypotheses, and unconditional containment for the model of the candidate patches. *)
+   without symbolic links).  The model follows the code after the four `fix:` commits recorded in
+   findings/known_C12.json; the shapes of the containment tests and of the require filter are
+   regenerated from the source (Generated/T_files_p8.v, T_files_build.v) and pinned, so a revert
+   of a fix breaks a pin here.  The `*_variant_refuted` lemmas show that the statements are false for
+   the plain string-prefix tests / the two-test filter the code had before. *)
 From PV Require Import Base.Prelude Model.Paths Model.Include Model.Require Model.FilesInst
   Spec.PathSpec Proofs.PathProofs Proofs.IncludeProofs Proofs.RequireProofs Instances.HoldsC12.
 
@@ -14,103 +15,115 @@ Theorem C12_abspath_location : forall cwd p,
   absolute cwd = true ->
   locate cwd (abspath cwd p) = locate cwd p /\ locate cwd (normpath p) = locate cwd p /\
   Forall not_parent (components (abspath cwd p)).
-Proof.
-  intros cwd p H. split; [apply locate_abspath; exact H|]. split; [apply locate_normpath|].
-  apply abspath_no_parent. exact H.
-Qed.
+Proof. exact abspath_location_now. Qed.
 Print Assumptions C12_abspath_location.
 
-(* #include, today's code: a resolved include lies under the include root PROVIDED the text that
-   follows the root in the resolved path starts at a separator (sep_aligned); the code only
-   checks the textual prefix (second conjunct) *)
-Theorem C12_include_contained_partial : forall cwd home isfile cart inc p,
+(* #include: whatever the include string, the cart's name, the working directory, HOME and the
+   file system: a path that process_includes goes on to open lies under the include root *)
+Theorem C12_include_contained : forall cwd home isfile cart inc p,
   absolute cwd = true ->
   resolve_include_now cwd home isfile cart inc = Ok p ->
-  (exists rest, p = inc_root_now cwd home cart ++ rest) /\
-  (sep_aligned (inc_root_now cwd home cart) p -> under cwd (inc_root_now cwd home cart) p).
-Proof.
-  intros cwd home isfile cart inc p Hc H. split.
-  - exact (include_prefixed _ cwd home isfile cart inc p H).
-  - exact (include_contained_partial _ cwd home isfile Hc cart inc p H).
-Qed.
-Print Assumptions C12_include_contained_partial.
+  under cwd (inc_root_now cwd home cart) p.
+Proof. exact include_contained_now. Qed.
+Print Assumptions C12_include_contained.
 
-(* ... and without that hypothesis it is false: `#include ../foobar/x.lua` from /t/foo/c.p8, and
-   `#include ../cartsY/x.lua` from a cart in ~/.lexaloffle/pico-8/cartsX *)
-Theorem C12_include_contained_refuted :
-  (exists cwd home isfile cart inc p, absolute cwd = true /\
-     resolve_include_now cwd home isfile cart inc = Ok p /\
-     underb cwd (inc_root_now cwd home cart) p = false)
-  /\ (exists p, resolve_include_now t_cwd t_home (fun _ => true) t_cart2 t_inc2 = Ok p /\
-       underb t_cwd (inc_root_now t_cwd t_home t_cart2) p = false /\
-       underb t_cwd (inc_root_now t_cwd t_home t_cart2) t_cart2 = false).
-Proof. exact (conj include_contained_refuted include_carts_folder_refuted). Qed.
-Print Assumptions C12_include_contained_refuted.
-
-(* the candidate patch (separator-aware test in process_includes and get_root_include_path):
-   unconditional containment, the carts folder is only chosen for carts that lie in it, and the
-   two witnesses are rejected *)
-Theorem C12_include_contained_fixed : forall cwd home isfile cart inc p,
+(* ... the include root is a PICO-8 carts folder in which the cart lies, or the cart's own directory *)
+Theorem C12_include_root_sound : forall cwd home cart,
   absolute cwd = true ->
-  resolve_include_fixed_now cwd home isfile cart inc = Ok p ->
-  under cwd (get_root_include_path_fixed T_files_p8.pico8_cart_paths cwd home cart) p.
-Proof. intros cwd home isfile cart inc p Hc. exact (include_contained_fixed _ cwd home isfile Hc cart inc p). Qed.
-Print Assumptions C12_include_contained_fixed.
-
-Theorem C12_include_root_fixed_sound : forall cwd home cart,
-  absolute cwd = true ->
-  let root := get_root_include_path_fixed T_files_p8.pico8_cart_paths cwd home cart in
+  let root := inc_root_now cwd home cart in
   (exists c, In c T_files_p8.pico8_cart_paths /\ root = full_path cwd home c /\ under cwd root (expanduser home cart))
-  \/ root = dirname (full_path cwd home cart).
-Proof. intros cwd home cart Hc. exact (root_fixed_sound _ cwd home Hc cart). Qed.
-Print Assumptions C12_include_root_fixed_sound.
+  \/ (root = dirname (full_path cwd home cart) /\
+      locate cwd root = locate cwd (dir_part (full_path cwd home cart))).
+Proof. exact include_root_sound_now. Qed.
+Print Assumptions C12_include_root_sound.
 
-(* require(), today's code: every candidate handed to os.path.isfile lies under the directory
-   named by its load-path pattern PROVIDED the require string is not empty and the instantiated
-   part of the candidate has no ".." component *)
-Theorem C12_require_contained_partial : forall cwd file_path lua_path req p,
-  require_filter_now req = true -> req <> [] ->
-  (forall pat, In pat (split_on 59 lua_path) -> Forall not_parent (components (candidate_tail pat req))) ->
-  In p (require_candidates_now file_path lua_path req) ->
-  exists pat, In pat (split_on 59 lua_path) /\ under cwd (pattern_dir (dirname file_path) pat) p.
-Proof. exact candidates_contained_partial. Qed.
-Print Assumptions C12_require_contained_partial.
+(* ... and a string that points outside the root (`../`, absolute paths, prefix-sharing siblings) is
+   rejected with P8IncludeOutsideOfAllowedDirectory before the file system is consulted; an accepted
+   one is the existing file the string denotes relative to the cart's directory *)
+Theorem C12_include_rejects_outside : forall cwd home isfile cart inc,
+  absolute cwd = true ->
+  underb cwd (inc_root_now cwd home cart) (join (dirname cart) inc) = false ->
+  resolve_include_now cwd home isfile cart inc = Err IncludeOutside.
+Proof. exact include_rejects_outside_now. Qed.
+Print Assumptions C12_include_rejects_outside.
 
-(* in particular for load paths made of patterns DIR/?SUFFIX (pattern_saneb; the regenerated
-   default ?;?.lua is one) it is enough that the require string has no ".." component - which is
-   what the candidate patch rejects, together with the empty string; and with the default load
-   path every candidate is under the requiring file's own directory *)
-Theorem C12_require_contained_sane : forall cwd file_path lua_path req p,
-  require_filter_now req = true -> req <> [] -> Forall not_parent (components req) ->
+Theorem C12_include_ok_spec : forall cwd home isfile cart inc p,
+  absolute cwd = true ->
+  resolve_include_now cwd home isfile cart inc = Ok p ->
+  p = include_full_path cwd cart inc /\ isfile p = true /\ locate cwd p = locate cwd (join (dirname cart) inc).
+Proof. exact include_ok_spec_now. Qed.
+Print Assumptions C12_include_ok_spec.
+
+(* with plain string-prefix tests (the code before the fixes; kinds 0) both statements are false:
+   `#include ../foobar/x.lua` from /t/foo/c.p8, and `#include ../cartsY/x.lua` from a cart in
+   ~/.lexaloffle/pico-8/cartsX; today's model rejects both *)
+Theorem C12_include_prefix_variant_refuted :
+  (exists cwd home isfile cart inc p, absolute cwd = true /\
+     resolve_include_prefix cwd home isfile cart inc = Ok p /\
+     underb cwd (inc_root_prefix cwd home cart) p = false)
+  /\ (exists p, resolve_include_prefix t_cwd t_home (fun _ => true) t_cart2 t_inc2 = Ok p /\
+       underb t_cwd (inc_root_prefix t_cwd t_home t_cart2) p = false /\
+       underb t_cwd (inc_root_prefix t_cwd t_home t_cart2) t_cart2 = false)
+  /\ (resolve_include_now t_cwd t_home (fun _ => true) t_cart t_inc = Err IncludeOutside /\
+      resolve_include_now t_cwd t_home (fun _ => true) t_cart2 t_inc2 = Err IncludeOutside /\
+      inc_root_now t_cwd t_home t_cart2 = dirname t_cart2).
+Proof. exact include_prefix_variants_refuted. Qed.
+Print Assumptions C12_include_prefix_variant_refuted.
+
+(* require(): whatever string passes the filter, every candidate _locate_require_file hands to
+   os.path.isfile (hence the file it opens) lies under the directory named by its load-path pattern
+   (relative patterns: relative to the directory of the requiring file), for every load path made of
+   patterns DIR/NAME?SUFFIX (pattern_saneb; the load path is the user's configuration, not the cart's) *)
+Theorem C12_require_contained : forall cwd file_path lua_path req p,
+  require_filter_now req = true ->
   forallb pattern_saneb (split_on 59 lua_path) = true ->
   In p (require_candidates_now file_path lua_path req) ->
   exists pat, In pat (split_on 59 lua_path) /\ under cwd (pattern_dir (dirname file_path) pat) p.
-Proof. exact candidates_contained_sane. Qed.
-Print Assumptions C12_require_contained_sane.
+Proof. exact candidates_contained. Qed.
+Print Assumptions C12_require_contained.
 
+(* any load path at all, provided the instantiated part of each candidate has no ".." component *)
+Theorem C12_require_contained_any_path : forall cwd file_path lua_path req p,
+  require_filter_now req = true ->
+  (forall pat, In pat (split_on 59 lua_path) -> Forall not_parent (components (candidate_tail pat req))) ->
+  In p (require_candidates_now file_path lua_path req) ->
+  exists pat, In pat (split_on 59 lua_path) /\ under cwd (pattern_dir (dirname file_path) pat) p.
+Proof. exact candidates_contained_tail. Qed.
+Print Assumptions C12_require_contained_any_path.
+
+(* the regenerated default load path ?;?.lua is sane, and with it every candidate is under the
+   requiring file's own directory *)
 Theorem C12_require_default_path : forall cwd file_path req p,
-  require_filter_now req = true -> req <> [] -> Forall not_parent (components req) ->
+  require_filter_now req = true ->
   In p (require_candidates_now file_path T_files_build.default_lua_path req) ->
   under cwd (dirname file_path) p /\ locate cwd (dirname file_path) = locate cwd (dir_part file_path).
-Proof.
-  intros cwd f req p H1 H2 H3 H4. split; [exact (candidates_default_under_base cwd f req p H1 H2 H3 H4)|].
-  apply locate_dirname.
-Qed.
+Proof. exact require_default_path_now. Qed.
 Print Assumptions C12_require_default_path.
 
-(* ... and without the hypotheses it is false: require("..") and require("") pass the filter *)
-Theorem C12_require_contained_refuted :
-  (exists req p, require_filter_now req = true /\ In p (require_candidates_now r_main r_path req) /\
+(* what the filter lets through: non-empty, relative, no ".." component, no "./" *)
+Theorem C12_require_filter_spec : forall req,
+  require_filter_now req = true ->
+  req <> [] /\ starts_with [47] req = false /\ Forall not_parent (components req) /\ contains [46; 47] req = false.
+Proof. exact require_filter_now_spec. Qed.
+Print Assumptions C12_require_filter_spec.
+
+(* the hypothesis on the load path cannot be dropped (pattern ?/../../x), and with the filter the
+   code had before the fixes (only "./" and a leading "/") the statement is false: require("..") and
+   require("") escaped; today's filter rejects them *)
+Theorem C12_require_variants_refuted :
+  (exists pat req p, require_filter_now req = true /\ pattern_saneb pat = false /\
+     In p (require_candidates_now [47; 116; 47; 119; 47; 109; 46; 108; 117; 97] pat req) /\
+     underb [47; 116] (pattern_dir [47; 116; 47; 119] pat) p = false)
+  /\ (exists req p, require_filter_old req = true /\ In p (require_candidates_now r_main r_path req) /\
      forallb (fun root => negb (underb r_cwd root p)) (require_roots (split_on 59 r_path) r_main) = true)
-  /\ (exists p, require_filter_now [] = true /\ In p (require_candidates_now r_main r_path []) /\
+  /\ (exists p, require_filter_old [] = true /\ In p (require_candidates_now r_main r_path []) /\
      forallb (fun root => negb (underb r_cwd root p)) (require_roots (split_on 59 r_path) r_main) = true)
-  /\ (exists p, require_filter_now [46; 46] = true /\
+  /\ (exists p, require_filter_old [46; 46] = true /\
      In p (require_candidates_now r_main T_files_build.default_lua_path [46; 46]) /\
-     underb r_cwd (dirname r_main) p = false).
-Proof.
-  exact (conj require_contained_refuted_dotdot (conj require_contained_refuted_empty require_contained_refuted_default)).
-Qed.
-Print Assumptions C12_require_contained_refuted.
+     underb r_cwd (dirname r_main) p = false)
+  /\ (require_filter_now [46; 46] = false /\ require_filter_now [] = false /\ require_filter_now [97; 47; 46; 46] = false).
+Proof. exact require_variants_refuted. Qed.
+Print Assumptions C12_require_variants_refuted.
 
 (* the monitors: a trace they accept only touches paths under a root (static roots for
    #include; for require the roots grow with every opened - hence requiring - file) *)
@@ -127,13 +140,11 @@ Theorem C12_monitor_growing : forall cwd grow tr roots,
 Proof. exact all_opens_under_growing_sound. Qed.
 Print Assumptions C12_monitor_growing.
 
-(* non-vacuity: the hypotheses of the partial theorems are satisfiable *)
+(* non-vacuity: accepted includes and require strings exist *)
 Example C12_nonvacuous :
   resolve_include_now t_cwd t_home (fun _ => true) t_cart [120; 46; 108; 117; 97] = Ok [47; 116; 47; 102; 111; 111; 47; 120; 46; 108; 117; 97]
-  /\ require_filter_now [97] = true /\ Forall not_parent (components [97])
+  /\ require_filter_now [97] = true
+  /\ forallb pattern_saneb (split_on 59 [108; 105; 98; 47; 63; 46; 108; 117; 97; 59; 63; 47; 105; 110; 105; 116; 46; 108; 117; 97]) = true
   /\ require_candidates_now r_main T_files_build.default_lua_path [97] =
      [[47; 116; 47; 119; 47; 112; 114; 111; 106; 47; 97]; [47; 116; 47; 119; 47; 112; 114; 111; 106; 47; 97; 46; 108; 117; 97]].
-Proof.
-  split; [vm_compute; reflexivity|]. split; [vm_compute; reflexivity|].
-  split; [repeat constructor; discriminate | vm_compute; reflexivity].
-Qed.
+Proof. repeat split; vm_compute; reflexivity. Qed.
